@@ -266,15 +266,28 @@ example : exGen.cppShow exGen.enumerators 1 = .name "AB_C".toList ∧
 /-- **`$default` precedence** (doc/language-reference.md: "a `$default` enum case can be set on
 a module, struct, bits, or enum and applies to all enum values within"): an attribute on the
 value wins; otherwise the innermost enclosing `$default`; otherwise SHOUTY_CASE only. -/
-theorem C19_enum_case_precedence (outer : List (List Attr)) (inner : List Attr) (a : Attr)
+theorem C19_enum_case_precedence (outer : List (List Attr)) (inner : List Attr)
     (t : List Char) (n : Name) :
-    effectiveCase [⟨a.backEnd, false, t⟩] (defaultsOf (outer ++ [inner])) = .cases t ∧
-    defaultsOf (outer ++ [[⟨a.backEnd, true, t⟩]]) = some t ∧
+    effectiveCase [⟨['c', 'p', 'p'], false, t⟩] (defaultsOf (outer ++ [inner])) = .cases t ∧
+    defaultsOf (outer ++ [[⟨['c', 'p', 'p'], true, t⟩]]) = some t ∧
     defaultsOf (outer ++ [[]]) = defaultsOf outer ∧
     enumeratorNames n (effectiveCase [] none) = some [n] := by
-  refine ⟨by simp [effectiveCase], ?_, ?_, by simp [effectiveCase, enumeratorNames]⟩
+  refine ⟨by simp [effectiveCase, Attr.isCpp], ?_, ?_, by simp [effectiveCase, enumeratorNames]⟩
+  · simp [defaultsOf, gatherDefault, List.foldl_append, Attr.isCpp]
   · simp [defaultsOf, gatherDefault, List.foldl_append]
-  · simp [defaultsOf, gatherDefault, List.foldl_append]
+
+/-- **Attributes addressed to another back end do not count** (`[(rust) enum_case: …]`): they
+change neither the effective case of a value nor the `$default` in force. -/
+theorem C19_enum_case_other_back_end_ignored (levels : List (List Attr)) (lvl : List Attr)
+    (b : List Char) (d : Bool) (t : List Char) (attrs : List Attr) (dflt : Option (List Char))
+    (hb : b ≠ ['c', 'p', 'p']) :
+    effectiveCase (⟨b, d, t⟩ :: attrs) dflt = effectiveCase attrs dflt ∧
+    defaultsOf (levels ++ [⟨b, d, t⟩ :: lvl]) = defaultsOf (levels ++ [lvl]) := by
+  have hc : (⟨b, d, t⟩ : Attr).isCpp = false := by
+    simp only [Attr.isCpp, beq_eq_false_iff_ne, ne_eq]; exact hb
+  constructor
+  · simp [effectiveCase, List.filter_cons, hc]
+  · simp [defaultsOf, gatherDefault, List.foldl_append, List.foldl_cons, hc]
 
 example : defaultsOf [[⟨"cpp".toList, true, "kCamelCase".toList⟩], [],
     [⟨"cpp".toList, true, "SHOUTY_CASE".toList⟩]] = some "SHOUTY_CASE".toList := by decide
